@@ -138,6 +138,7 @@ static void stage_corpus(Run &R) {
     }
 }
 
+#ifndef VF_FUZZ
 int main(int argc, char **argv) {
     Run R; R.a = parse_args(argc, argv); R.prop = "C02";
     install_death(R.a);
@@ -155,3 +156,11 @@ int main(int argc, char **argv) {
     else { fprintf(stderr, "unknown stage %s\n", R.a.stage.c_str()); return 2; }
     return finish(R);
 }
+#else
+VF_FUZZ_TARGET("C02", nullptr, [](Run &R, const uint8_t *d, size_t n) -> std::optional<Failure> {
+    if (n < 1) return std::nullopt;
+    Bytes l = fuzz_bytes(d, n - 1);
+    for (int m = 0; m < 3; m++) { auto f = check_one(R, m, l); if (f) return f; }
+    R.sample("fuzz", show(l.substr(0, 80)), 4);
+    return std::nullopt; })
+#endif
